@@ -59,7 +59,18 @@ def concept_nodes(g, root):
     allnodes = set(g.subjects(TF.type)) | set(g.subjects(TF.via)) | set(g.subjects(TF["from"])) | set(g.objects(None, TF["from"]))
     for n in sorted(allnodes, key=lambda n: node_key(g, n)):
         nodes[n] = {"via": set(g.objects(n, TF.via)), "subtypeOf": set(g.objects(n, TF.subtypeOf)), "type": set(g.objects(n, TF.type)),
-                    "depends": set(g.objects(n, TF.depends)), "from": set(g.objects(n, TF["from"]))}
+                    "from": set(g.objects(n, TF["from"]))}
+    # a node's dependencies are what its data flows from, directly or not: computed here from the tf:from edges, NOT read from the graph's
+    # tf:depends triples (that those are the same is C09; the query generator relies on the triples)
+    for n in nodes:
+        reach, work = set(), [n]
+        while work:
+            x = work.pop()
+            for y in nodes.get(x, {}).get("from", ()):
+                if y not in reach:
+                    reach.add(y)
+                    work.append(y)
+        nodes[n]["depends"] = reach
     return nodes
 
 
